@@ -368,10 +368,11 @@ pub fn op_arrow(
         ff(x.0.to_vec(), x.1),
     );
     match r {
-        Ok(a) => (
-            "Ok".to_string(),
-            Some((a.is_monomorphism(), a.is_convex_subgraph())),
-        ),
+        Ok(a) => {
+            let b = a.clone();
+            assert!(b.w == a.w && b.x == a.x, "harness: HypergraphArrow::clone changed the maps");
+            ("Ok".to_string(), Some((b.is_monomorphism(), a.is_convex_subgraph())))
+        }
         Err(e) => (
             match e {
                 InvalidHypergraphArrow::TypeMismatchW => "TypeMismatchW",
